@@ -428,7 +428,7 @@ def kafka(ctx, thorough):
             continue
         if r.get("garbage"):
             ctx.violation("kafka producer gave the library a message with another topic or other octets than handed over", {"case": c}, key="kafka:garbage")
-        for k, run in enumerate(r["runs"]):
+        for k, run in enumerate(r.get("runs") or []):
             ctx.count(["kafka", c["fail"], k], nontrivial=bool(c["fail"]))
             rows.append({"ev": "reset"})
             index.append((c, run))
@@ -449,4 +449,4 @@ def kafka(ctx, thorough):
         raise vlib.Infra("ProducerKafkaTrace ended unexpectedly: %s\n%s" % (out, out.out[-1200:]))
     else:
         ctx.traces_validated += len(cases)
-    ctx.extra["kafka_runs"] = sum(len(r.get("runs", [])) for r in res)
+    ctx.extra["kafka_runs"] = sum(len(r.get("runs") or []) for r in res)
